@@ -259,7 +259,11 @@ def encoding_chain(ctx: Ctx) -> None:
         ctx.expect("R-FWD", fo, "open() opens the caller's filename", bool(c2.args) and isinstance(c2.args[0], ast.Name) and c2.args[0].id == "filename" and lo.only_param("filename"), "", "", node=c2)
     ctx.expect("R-FWD", fo, "open() handles both the default list and an explicit encoding", covered == {"default", "explicit"}, str(sorted(covered)), f"covered cases: {sorted(covered)}", node=fo.node)
     rr = [r for r in body_walk(fo.node) if isinstance(r, ast.Return)]
-    good = bool(rr) and all(isinstance(r.value, ast.Subscript) and r.value.value in sites and try_ev(ctx, fo, r.value.slice) == 0 for r in rr)
+    def _is_site(e):
+        e = inline(e, fo)
+        return any(norm(e) == norm(inline(s_, fo)) for s_ in sites)
+
+    good = bool(rr) and all(isinstance(r.value, ast.Subscript) and _is_site(r.value.value) and try_ev(ctx, fo, r.value.slice) == 0 for r in rr)
     cfo = ctx.cfg(fo)
     good = good and cfo.must_pass([cfg_node_of(cfo, fo, r) for r in rr]) is None
     ctx.expect("R-TABLE", fo, "open() returns the simfile element of the result", good, "", "open() does not return result[0] on every path", node=fo.node)
